@@ -2,6 +2,7 @@
 import copy
 import io
 import json
+import sys
 
 from hypothesis import strategies as st
 
@@ -54,7 +55,46 @@ def strategy(tier):
     n = N.pair().map(lambda t: {"kind": "nb", "a": t[0], "b": t[1]})
     m = st.tuples(N.triple(), S.strategy_args()).map(
         lambda t: {"kind": "merge", "base": t[0][0], "local": t[0][1], "remote": t[0][2], "args": t[1]})
-    return st.one_of(j, n, n, m, m)
+    return st.one_of(j, n, n, m, m, m, n, n, m, m, m, deep_pair())
+
+
+@st.composite
+def deep_pair(draw):
+    """A pair whose display_data / execute_result outputs carry metadata (or JSON data) nested hundreds of levels deep. The case stores
+    only the depth; the nesting is built when the case runs (so that cases stay small and picklable)."""
+    a, b = draw(N.pair())[:2]
+    return {"kind": "nb", "a": a, "b": b, "deep": draw(st.sampled_from([150, 300, 450, 600, 900])),
+            "deep_where": draw(st.sampled_from(["metadata", "metadata", "json"])), "deep_leaf_b": draw(st.sampled_from([1, 2]))}
+
+
+def _nest(d, leaf):
+    x = leaf
+    for _ in range(d):
+        x = {"k": x}
+    return x
+
+
+def inflate(case):
+    """(a, b) of a deep case with the nesting put in place."""
+    a, b = copy.deepcopy(case["a"]), copy.deepcopy(case["b"])
+    d, where = case["deep"], case.get("deep_where", "metadata")
+    hit = False
+    for nb, leaf in ((a, 1), (b, case.get("deep_leaf_b", 1))):
+        for c in nb["cells"]:
+            for o in c.get("outputs", []):
+                if o.get("output_type") in ("display_data", "execute_result"):
+                    if where == "metadata":
+                        o["metadata"] = {"deep": _nest(d, leaf)}
+                    else:
+                        o["data"] = dict(o["data"], **{"application/json": _nest(d, leaf)})
+                    hit = True
+    if not hit:
+        for nb in (a, b):
+            nb["cells"].append({"cell_type": "code", "metadata": {}, "source": "plot()", "execution_count": None,
+                                "outputs": [{"output_type": "display_data", "data": {"text/plain": "<Figure>"}, "metadata": {"deep": _nest(d, 1)}}]})
+            if nb["nbformat_minor"] >= 5:
+                nb["cells"][-1]["id"] = "deepcell"
+    return a, b
 
 
 SENTINEL = "__vp_scribble__"
@@ -88,11 +128,18 @@ def checked_call(out, name, fn, args, argnames):
     out.count("calls")
     out.count("call_" + name)
     res, exc = None, None
+    limit = sys.getrecursionlimit()
     try:
-        res = fn(*args)
+        sys.setrecursionlimit(min(limit, 1000))      # the library runs under the interpreter's default limit (deep cases raise the harness's)
+        try:
+            res = fn(*args)
+        finally:
+            sys.setrecursionlimit(limit)
     except Exception as e:
         exc = e
         out.count("calls_that_raised")
+        if isinstance(e, RecursionError):
+            out.count("calls_that_hit_the_recursion_limit")
     for a, b, an in zip(args, before, argnames):
         if canon(plain(a)) != b:
             out.fail("snapshot", "argument_modified", "%s(%s)%s" % (name, an, " while raising" if exc else ""))
@@ -123,6 +170,18 @@ def has_added_value(d):
 
 
 def run_case(case):
+    if case.get("deep"):
+        # deeply nested (valid) JSON: the harness's own snapshots need head-room, the library calls do not get it (see checked_call)
+        limit = sys.getrecursionlimit()
+        sys.setrecursionlimit(50000)
+        try:
+            return _run_case(case)
+        finally:
+            sys.setrecursionlimit(limit)
+    return _run_case(case)
+
+
+def _run_case(case):
     import nbdime
     from nbdime.merging.generic import decide_merge
     from nbdime.merging.decisions import apply_decisions, build_diffs
@@ -147,8 +206,11 @@ def run_case(case):
         return pp.PrettyPrintConfig(out=io.StringIO())
 
     if kind == "nb":
-        a, b = to_nb(case["a"]), to_nb(case["b"])
-        out.nontrivial = has_rich_output(case["a"]) and has_rich_output(case["b"])
+        ca, cb = inflate(case) if case.get("deep") else (case["a"], case["b"])
+        if case.get("deep"):
+            out.label("nested_%d_deep" % case["deep"])
+        a, b = to_nb(ca), to_nb(cb)
+        out.nontrivial = has_rich_output(ca) and has_rich_output(cb)
         d = checked_call(out, "diff_notebooks", nbdime.diff_notebooks, [a, b], ["a", "b"])
         if d is not None:
             if has_added_value(plain(d)):
